@@ -118,13 +118,18 @@ fn conv_level(rng: &mut Rng, o: &ConvOpts, name: String, depth_left: usize, inhe
             continue;
         }
         if o.aliases && a.long.is_some() && rng.chance(1, 3) {
-            if let Some(l) = pick_long(rng, &mut used) {
-                a.aliases.push((l, rng.coin()));
+            // (mostly one alias; now and then a second and a third)
+            for _ in 0..*rng.pick(&[1usize, 1, 1, 2, 3]) {
+                if let Some(l) = pick_long(rng, &mut used) {
+                    a.aliases.push((l, rng.coin()));
+                }
             }
         }
         if o.aliases && a.short.is_some() && rng.chance(1, 4) {
-            if let Some(s) = pick_short(rng, &mut used) {
-                a.short_aliases.push((s, rng.coin()));
+            for _ in 0..*rng.pick(&[1usize, 1, 1, 2]) {
+                if let Some(s) = pick_short(rng, &mut used) {
+                    a.short_aliases.push((s, rng.coin()));
+                }
             }
         }
         if is_flag {
@@ -212,6 +217,10 @@ fn conv_level(rng: &mut Rng, o: &ConvOpts, name: String, depth_left: usize, inhe
                 }
             }
         }
+        if o.extended && !is_flag && a.vp.is_none() && rng.chance(1, 6) {
+            // (PathBuf would do as well, but its parser rejects the empty string)
+            a.vp = Some(Vp::Os);
+        }
         if o.env && rng.chance(1, 3) {
             a.env = Some(format!("{}{}", o.env_prefix, a.id.to_uppercase()));
         }
@@ -261,6 +270,9 @@ fn conv_level(rng: &mut Rng, o: &ConvOpts, name: String, depth_left: usize, inhe
         }
         if o.required && rng.chance(1, 6) && c.args.iter().filter(|x| x.is_positional()).all(|x| x.required) && !a.last {
             a.required = true;
+        }
+        if o.extended && rng.chance(1, 6) {
+            a.vp = Some(Vp::Os);
         }
         c.args.push(a);
     }
@@ -368,11 +380,14 @@ fn conv_level(rng: &mut Rng, o: &ConvOpts, name: String, depth_left: usize, inhe
             let Some(nm) = nm else { continue };
             let mut s = conv_level(rng, o, nm, depth_left - 1, &down, lvl + 1);
             if o.aliases && rng.chance(1, 3) {
-                for _ in 0..4 {
+                let want = *rng.pick(&[1usize, 1, 1, 2, 3]);
+                for _ in 0..6 {
                     let l = rng.pick(CONV_SUBS).to_string();
                     if used.subs.insert(l.clone()) {
                         s.aliases.push((l, rng.coin()));
-                        break;
+                        if s.aliases.len() == want {
+                            break;
+                        }
                     }
                 }
             }
@@ -392,8 +407,10 @@ fn conv_level(rng: &mut Rng, o: &ConvOpts, name: String, depth_left: usize, inhe
             if o.flag_subs && rng.chance(1, 4) {
                 s.long_flag = pick_long(rng, &mut used);
                 if s.long_flag.is_some() && o.aliases && rng.chance(1, 3) {
-                    if let Some(l) = pick_long(rng, &mut used) {
-                        s.long_flag_aliases.push((l, rng.coin()));
+                    for _ in 0..rng.range(1, 2) {
+                        if let Some(l) = pick_long(rng, &mut used) {
+                            s.long_flag_aliases.push((l, rng.coin()));
+                        }
                     }
                 }
             }
@@ -487,7 +504,18 @@ fn value_tok(rng: &mut Rng, a: &ArgSpec, occ: usize, k: usize) -> String {
         let n = hash_str(&a.id) % 900 + 100;
         return if rng.coin() { format!("-{}{}{}", n, occ, k) } else { format!("-{}{}.{}", n, occ, k) };
     }
-    let base = format!("{}o{}v{}", a.id, occ, k);
+    let mut base = format!("{}o{}v{}", a.id, occ, k);
+    // byte-for-byte: an argument that takes OS strings gets values that are not UTF-8, the invalid
+    // bytes behind, between or in front of valid characters
+    if matches!(a.vp, Some(Vp::Os) | Some(Vp::Path)) && rng.chance(1, 2) {
+        let bad = *rng.pick(&["\\xE9", "\\xFF", "\\xC3", "\\xE2\\x82", "\\xFF\\xFE", "\\x80"]);
+        base = match rng.below(4) {
+            0 => format!("{}{}", base, bad),
+            1 => format!("{}{}z", base, bad),
+            2 => format!("{}{}", bad, base),
+            _ => format!("{}{}{}é", &base[..2], bad, &base[2..]),
+        };
+    }
     // the empty string is a value like any other (`--opt=`, `--opt ""`, a `""` positional)
     if !a.allow_hyphen && rng.chance(1, 24) {
         return String::new();
@@ -526,7 +554,8 @@ pub fn gen_intent(rng: &mut Rng, c: &CmdSpec, io: &IntentOpts) -> LevelIntent {
     // low-index multiple pair (multi-valued second-to-last + final positional): both supplied,
     // adjacent, at the very end of the line, nothing after them
     let low_index = poss.len() >= 2 && c.args[poss[poss.len() - 2]].eff_num_args().1 > 1 && !c.args[poss[poss.len() - 1]].last;
-    let sub = if low_index { None } else { sub };
+    // (a subcommand may follow the pair: the look-ahead that hands the last token to the final
+    // positional also looks for subcommand names, inferred ones included)
     // a positional that allows hyphen values takes every later token of the line
     let hyphen_pos = poss.iter().any(|p| c.args[*p].allow_hyphen);
     let sub = if hyphen_pos { None } else { sub };
@@ -932,7 +961,8 @@ pub fn render(rng: &mut Rng, root: &CmdSpec, intent: &LevelIntent, st: &Style) -
 }
 
 fn push_tok(r: &mut Rendered, s: String) -> usize {
-    r.argv.push(s.into());
+    // (`\xHH` in a model string is the raw byte: values of OsString-typed arguments may be non-UTF-8)
+    r.argv.push(enc_escapes(&s));
     r.argv.len() - 1
 }
 
@@ -1240,6 +1270,9 @@ fn render_level<'a>(rng: &mut Rng, c: &'a CmdSpec, li: &LevelIntent, st: &Style,
 }
 
 fn place_values(r: &mut Rendered, lvl: usize, arg: usize, a: &ArgSpec, tok: &str, ti: usize, off: usize) {
+    if tok.contains("\\x") {
+        r.features.push(if off > 0 { "value.non-utf8-attached" } else { "value.non-utf8" });
+    }
     if tok.starts_with('-') {
         r.features.push(if a.allow_hyphen { "value.hyphen-looking" } else { "value.negative-number" });
     }
